@@ -138,6 +138,47 @@ fn any_span_val(v: &Value) -> bool {
         }
 }
 
+/// a map key that is spanned when the deserializer offers it and plain otherwise (the private
+/// date-time struct presents its single key as a plain string)
+enum K {
+    Spanned(Spanned<String>),
+    Plain(String),
+}
+impl<'de> Deserialize<'de> for K {
+    fn deserialize<D: Deserializer<'de>>(d: D) -> Result<Self, D::Error> {
+        struct KV;
+        impl<'de> Visitor<'de> for KV {
+            type Value = K;
+            fn expecting(&self, f: &mut std::fmt::Formatter<'_>) -> std::fmt::Result {
+                write!(f, "a key")
+            }
+            fn visit_str<E>(self, v: &str) -> Result<K, E> {
+                Ok(K::Plain(v.to_string()))
+            }
+            fn visit_map<A: MapAccess<'de>>(self, mut a: A) -> Result<K, A::Error> {
+                let mut start = 0usize;
+                let mut end = 0usize;
+                let mut val = String::new();
+                while let Some(k) = a.next_key::<String>()? {
+                    if k == serde_spanned::__unstable::START_FIELD {
+                        start = a.next_value()?;
+                    } else if k == serde_spanned::__unstable::END_FIELD {
+                        end = a.next_value()?;
+                    } else {
+                        val = a.next_value()?;
+                    }
+                }
+                Ok(K::Spanned(Spanned::new(start..end, val)))
+            }
+        }
+        d.deserialize_struct(
+            serde_spanned::__unstable::NAME,
+            &[serde_spanned::__unstable::START_FIELD, serde_spanned::__unstable::END_FIELD, serde_spanned::__unstable::VALUE_FIELD],
+            KV,
+        )
+    }
+}
+
 /// serde route: a recursive Spanned tree
 #[derive(Debug)]
 struct Node(Spanned<Inner>);
@@ -184,15 +225,20 @@ impl<'de> Deserialize<'de> for Inner {
             }
             fn visit_map<A: MapAccess<'de>>(self, mut a: A) -> Result<Inner, A::Error> {
                 let mut v = vec![];
-                let mut first = true;
-                while let Some(k) = a.next_key::<Spanned<String>>()? {
-                    if first && k.get_ref() == "$__toml_private_datetime" {
-                        let s: String = a.next_value()?;
-                        return Ok(Inner::Scalar(toml::Value::Datetime(s.parse().map_err(serde::de::Error::custom)?)));
+                while let Some(k) = a.next_key::<K>()? {
+                    match k {
+                        K::Plain(name) => {
+                            if name == "$__toml_private_datetime" {
+                                let s: String = a.next_value()?;
+                                return Ok(Inner::Scalar(toml::Value::Datetime(s.parse().map_err(serde::de::Error::custom)?)));
+                            }
+                            return Err(serde::de::Error::custom(format!("map key `{name}` carries no span")));
+                        }
+                        K::Spanned(k) => {
+                            let x = a.next_value::<Node>()?;
+                            v.push((k, x));
+                        }
                     }
-                    first = false;
-                    let x = a.next_value::<Node>()?;
-                    v.push((k, x));
                 }
                 Ok(Inner::Table(v))
             }
